@@ -73,6 +73,19 @@ def observe(g, obj):
     return [str(obj), obj.generate_string(False), bool(obj.generable), els, mir] + _graph_summary(g, obj)
 
 
+def system_ops(sysobj, k, seed):
+    """observations of a System: its printed forms (observe), the whole ensemble under a seeded generator (stage)"""
+    if k == "observe":
+        return [str(sysobj), sysobj.generate_string(False), bool(sysobj.generable)]
+    if k == "stage":
+        try:
+            rng = np.random.default_rng(seed)
+            return ["ensemble", [[m.smiles, round(float(m.weight), 6)] for m in type(sysobj).generator.fget(sysobj, rng)]]
+        except Exception as exc:
+            return ["raises", type(exc).__name__]
+    return ["n/a"]
+
+
 def stagewise(obj, seed):
     rng = np.random.default_rng(seed)
     mg = None
@@ -185,13 +198,17 @@ class Replayer:
         g = self.g
         k, s, a = op["op"], op["slot"], op["arg"]
         if k == "parse":
-            self.slots[s] = (a, g.Molecule(self.strings[a - 1]))
+            text = self.strings[a - 1]
+            # a string marked SYS: is the text of a system (several components): System(text)
+            self.slots[s] = (a, g.System(text[4:]) if text.startswith("SYS:") else g.Molecule(text))
             return None
         if k == "perturb":
             g._GLOBAL_RNG.random()
             g._GLOBAL_RNG.standard_normal()
             return None
         sid, obj = self.slots[s]
+        if self.strings[sid - 1].startswith("SYS:") and k in ("observe", "stage", "atomgen"):
+            return system_ops(obj, k, self.seedmap[sid - 1][a - 1] if k != "observe" else 0)
         if k == "gen":
             return _obs_generate(lambda: obj.generate(rng=np.random.default_rng(self.seedmap[sid - 1][a - 1])))
         if k == "genglobal":
